@@ -413,6 +413,10 @@ class SchemaGroup(SchemaSet):
                 field = tag_fields[t]
 
                 if isinstance(field, SchemaField):
+                    if fmsg.is_group(t):
+                        raise FIXMessageError(
+                            f"fixmessage={groups}, tag={t} must be a tag, got group"
+                        )
                     field.validate_value(v)
                 else:
                     # Nested group!?
@@ -433,11 +437,10 @@ class SchemaGroup(SchemaSet):
                 )
 
             for st, sv in tag_fields.items():
-                if isinstance(sv, SchemaField):
-                    if sv.tag not in fmsg and self.required[sv]:
-                        raise FIXMessageError(
-                            f"fixmessage={groups} missing required field {repr(sv)}"
-                        )
+                if sv.tag not in fmsg and self.required[sv]:
+                    raise FIXMessageError(
+                        f"fixmessage={groups} missing required field {repr(sv)}"
+                    )
 
     def __repr__(self):
         """Repr."""
@@ -542,7 +545,7 @@ class FIXSchema:
                     # Group also refers to other component, postpone it
                     has_circular_refs = True
                     continue
-                component.add(g, g.required)
+                component.add(g, g.field_required)
 
         if has_circular_refs:
             return None
@@ -698,9 +701,8 @@ class FIXSchema:
             schema_fields.add(fname)
 
             if req:
-                if isinstance(f, SchemaField):
-                    if f.tag not in msg:
-                        raise FIXMessageError(f"Missing required field={repr(f)}")
+                if f.tag not in msg:
+                    raise FIXMessageError(f"Missing required field={repr(f)}")
 
         if "8" in msg:
             self._validate_header(msg)
